@@ -1,8 +1,9 @@
 SPECIFICATION Spec
 CONSTANTS
   Kinds = {"items"}
-  Lens = {0, 1, 2, 3, 4, 5, 8, 9, 16, 17, 4095, 4096, 4097, 262143, 262144, 262145}
-  PoolBound = 2
+  Small = {0, 1, 2, 3, 4, 5}
+  Around <- AroundStd
+  PoolBound = 1
   Reslice = TRUE
 VIEW View
 INVARIANTS PoolInv
